@@ -1,12 +1,11 @@
 package util
 
-// Witness for the C02 canonical-shape obligations: searches (bounded) for an operation history whose
-// root differs from the root of a trie built directly from the same final content.
-// obligation: (*MerklePatriciaTrie).deleteAtNode::pre:(*MerklePatriciaTrie).insertNode#canonical-node => root depends on history
-// obligation: (*MerklePatriciaTrie).insertAtNode::pre:(*MerklePatriciaTrie).insertNode#canonical-node => root depends on history
-// obligation: (*MerklePatriciaTrie).insertAtNode::pre:(*MerklePatriciaTrie).insertExtension#canonical-extension => root depends on history
-// obligation: (*MerklePatriciaTrie).insertAfterPathTraversal::pre:(*MerklePatriciaTrie).insertNode#canonical-node => root depends on history
-// obligation: (*MerklePatriciaTrie).deleteAtNode::post#returns-canonical-node => root depends on history
+// Bounded stand-in for the history-independence half of C02 (the contracts prove the canonical
+// shape of every node handed to the store, not the equality of roots across histories): every
+// history of up to 4 inserts / deletes over prefix-related paths is run, and its root is compared
+// with the root of a trie built directly (sorted inserts) from the same final content.
+// property: C02
+// scope: paths {3456, 3457, 9, a34567, a34568, a9, b0, 12, 1234, 1256}; all histories of <= 4 insert/delete operations (deletes of live keys only); memory store, one version
 
 import (
 	"fmt"
@@ -23,13 +22,14 @@ func init() {
 	logging.N2n = zap.NewNop()
 }
 
-func c02trie() *MerklePatriciaTrie {
+func c02btrie() *MerklePatriciaTrie {
 	sc := statecache.NewStateCache()
 	_, tc := statecache.NewBlockTxnCaches(sc, statecache.Block{})
 	return NewMerklePatriciaTrie(NewMemoryNodeDB(), 1, nil, tc)
 }
 
-func TestGocvWitnessC02(t *testing.T) {
+func TestGocvBoundedC02(t *testing.T) {
+	cases := 0
 	paths := []string{"3456", "3457", "9", "a34567", "a34568", "a9", "b0", "12", "1234", "1256"}
 	type op struct {
 		del  bool
@@ -42,15 +42,18 @@ func TestGocvWitnessC02(t *testing.T) {
 	fails := 0
 	var run func(seq []op, live map[string]bool)
 	run = func(seq []op, live map[string]bool) {
-		if len(seq) > 0 && fails < 3 {
+		if len(seq) > 0 {
+			cases++
 			func() {
 				defer func() {
 					if r := recover(); r != nil {
-						fmt.Printf("GOCV-PANIC root depends on history: %v after %v\n", r, seq)
+						if fails < 3 {
+							fmt.Printf("GOCV-PANIC %v after %v\n", r, seq)
+						}
 						fails++
 					}
 				}()
-				tr := c02trie()
+				tr := c02btrie()
 				for _, o := range seq {
 					if o.del {
 						_, _ = tr.Delete(Path(o.path))
@@ -63,12 +66,14 @@ func TestGocvWitnessC02(t *testing.T) {
 					keys = append(keys, k)
 				}
 				sort.Strings(keys)
-				direct := c02trie()
+				direct := c02btrie()
 				for _, k := range keys {
 					_, _ = direct.Insert(Path(k), &SecureSerializableValue{Buffer: []byte("v")})
 				}
 				if string(tr.GetRoot()) != string(direct.GetRoot()) {
-					fmt.Printf("GOCV-FAIL root depends on history: %v gives root %x, direct construction of %v gives %x\n", seq, tr.GetRoot(), keys, direct.GetRoot())
+					if fails < 3 {
+						fmt.Printf("GOCV-FAIL root depends on history: %v gives root %x, direct construction of %v gives %x\n", seq, tr.GetRoot(), keys, direct.GetRoot())
+					}
 					fails++
 				}
 			}()
@@ -99,5 +104,5 @@ func TestGocvWitnessC02(t *testing.T) {
 	if fails > 0 {
 		t.Fail()
 	}
-	fmt.Println("GOCV-DONE")
+	fmt.Printf("GOCV-BOUNDED cases=%d failures=%d scope=\"all histories of <= 4 inserts/deletes over %v: root equals the root of the trie built directly from the final content\"\n", cases, fails, paths)
 }
